@@ -118,6 +118,10 @@ for d in dirs:
         r = {'id': name, 'status': 'DETECTED' if hit else 'MISSED', 'by': hit, 'signatures': sigs, 'notes': notes, 'secs': round(time.time() - t0, 1)}
     else:
         alarms = {}
+        # the repository's own tests must pass with the change (it is meant to be behaviour-preserving)
+        rc_t, out_t = sh(['timeout', '900', 'cargo', 'test', '--offline', '--test', 'fasta', '--test', 'fastq'], cwd=REPO, merge=True)
+        if rc_t != 0:
+            alarms['repo-tests'] = {'exit': rc_t, 'tail': out_t[-400:]}
         for cid in ALL:
             if not ensure_built(cid):
                 alarms[cid] = 'build failed'
